@@ -37,6 +37,13 @@ def Dom.geo : Dom → Rat
   | .fin _ _ _ _ g _ => g
   | .cat .. => 0
 
+/-- `np.clip(midpoint, value_type(lower), value_type(upper))` for each kind
+(`int(float(lower)) = lower` for an `Integer` domain) -/
+def Dom.clipMid (d : Dom) (m : Val) (lower upper : Rat) : Val :=
+  match d, m with
+  | .int lo hi _ _, .int i => .int (clipInt i lo hi)
+  | _, _ => clipVal m lower upper
+
 /-- `_non_default_config`: the mid-point rule.  `hint` only resolves a nearest-value
 choice that is within round-off of a tie. -/
 def Dom.midpoint (d : Dom) (hint : Option Nat) : Except Err Val :=
@@ -54,7 +61,7 @@ def Dom.midpoint (d : Dom) (hint : Option Nat) : Except Err Val :=
       | .error e => .error e
       | .ok m =>
         -- lower = value_type(lower); upper = value_type(upper); np.clip(midpoint, lower, upper)
-        .ok (clipVal m lower upper)
+        .ok (d.clipMid m lower upper)
 
 /-- `_default_config_value`: cast, then assert membership / range -/
 def Dom.defaultValue (d : Dom) (given : Val) : Except Err Val :=
@@ -114,5 +121,38 @@ def imputePoints (sp : Space) (hints : List (String × Nat)) (p2e : Option (List
   match imputeAll hints (hpEntries sp) (p2e.getD [[]]) with
   | .error e => .error e
   | .ok cs => .ok (dedupLoop cs [])
+
+/-! ### executable well-formedness check of a space (hypothesis of the C06 theorems; the
+driver evaluates it on every space the correspondence stream generates) -/
+
+def sameTypes : List Val → Bool
+  | [] => true
+  | v :: vs => vs.all fun w => w.vtype == v.vtype
+
+/-- `cast` is the identity on `v` -/
+def Dom.castFixes (d : Dom) (v : Val) : Bool :=
+  match d.cast v none with
+  | .ok w => w == v
+  | .error _ => false
+
+def Dom.clipFixes (d : Dom) (v : Val) : Bool :=
+  match d.numBounds with
+  | .ok (lo, hi) => d.clipMid v lo hi == v
+  | .error _ => false
+
+/-- well-formed domain: non-empty, homogeneous value lists; ordered bounds; for the
+finite numeric kinds: casting and clipping leave every listed value unchanged -/
+def Dom.wfb (d : Dom) : Bool :=
+  match d with
+  | .cat cats _ => !cats.isEmpty && sameTypes cats
+  | .nn cats _ _ => !cats.isEmpty && sameTypes cats && cats.all (fun v => v.num?.isSome) &&
+      cats.all d.castFixes && cats.all d.clipFixes
+  | .int lo hi _ _ => decide (lo ≤ hi)
+  | .float lo hi _ _ => decide (lo ≤ hi)
+  | .fin vals lo hi _ _ _ => !vals.isEmpty && sameTypes vals && vals.all (fun v => v.num?.isSome) &&
+      decide (lo ≤ hi) && vals.all d.castFixes && vals.all d.clipFixes
+
+def Space.wfb (sp : Space) : Bool :=
+  (hpEntries sp).all (fun kd => kd.2.wfb) && decide ((sp.map Prod.fst).Nodup)
 
 end SyneTune.Srch
